@@ -64,7 +64,7 @@ pub fn check_session(
         runs.push((
             "collected",
             RunOpts {
-                schedule: marwood::vm::verif::GcSchedule::Random { state, num: 1, den: 5 },
+                schedule: marwood::vm::verif::GcSchedule::Random { state, num: 1, den: 11 },
                 gc_between_forms: true,
                 ..RunOpts::default()
             },
@@ -129,6 +129,88 @@ pub fn case(ctx: &Ctx, bytes: &[u8]) -> Outcome {
     check_forms(ctx, &s.forms, &s.features)
 }
 
+/// Activation histories: a maker procedure (formals (), (a), (a . r) or r; its state in internal
+/// definitions, a `let`, or a parameter) whose instances are closures over that state; a random
+/// interleaving of creating instances and operating on them, plus a recursive procedure that
+/// reads one of its own internal definitions after the recursive call returned. Every activation
+/// must have its own locations, whatever the shape of the formals.
+fn activation_program(c: &mut mwv_core::choice::Choices) -> Vec<Sx> {
+    let formals = c.below(4);
+    let style = c.below(4);
+    let (head, arg_n): (&str, usize) = match formals {
+        0 => ("(mk)", 0),
+        1 => ("(mk a)", 1),
+        2 => ("(mk a . r)", 1 + c.below(2)),
+        _ => ("(mk . r)", c.below(3)),
+    };
+    let init = match formals {
+        0 => "0",
+        1 | 2 => "a",
+        _ => "(if (null? r) 0 (car r))",
+    };
+    let mut src = String::new();
+    let dispatch = "(lambda (op) (cond ((eq? op 'inc) (bump! 1)) ((eq? op 'get) n) (else (set! n op) n)))";
+    match style {
+        0 => src.push_str(&format!("(define {} (define n {}) (define (bump! d) (set! n (+ n d)) n) {})", head, init, dispatch)),
+        1 => src.push_str(&format!("(define {} (let ((n {})) (define (bump! d) (set! n (+ n d)) n) {}))", head, init, dispatch)),
+        2 => src.push_str(&format!(
+            "(define {} (define n {}) (define log '()) (define (bump! d) (set! log (cons n log)) (set! n (+ n d)) n) (lambda (op) (cond ((eq? op 'inc) (bump! 1)) ((eq? op 'get) (cons n log)) (else (set! n op) n))))",
+            head, init
+        )),
+        _ => src.push_str(&format!(
+            "(define {} (define n {}) (define bump! (lambda (d) (set! n (+ n d)) n)) (begin (define extra 100) {}))",
+            head, init, dispatch
+        )),
+    }
+    let mut made: Vec<String> = vec![];
+    let nops = 4 + c.below(10);
+    for i in 0..nops {
+        let create = made.is_empty() || (made.len() < 4 && c.chance(70));
+        if create {
+            let args: Vec<String> = (0..arg_n).map(|_| (c.below(9) as i64 - 3).to_string()).collect();
+            let nm = format!("i{}", made.len());
+            src.push_str(&format!("(define {} (mk {}))", nm, args.join(" ")));
+            made.push(nm);
+        } else {
+            let who = made[c.below(made.len())].clone();
+            match c.below(4) {
+                0 | 1 => src.push_str(&format!("({} 'inc)", who)),
+                2 => src.push_str(&format!("({} 'get)", who)),
+                _ => src.push_str(&format!("({} {})", who, 10 * (i as i64 + 1))),
+            }
+        }
+    }
+    for who in &made {
+        src.push_str(&format!("({} 'get)", who));
+    }
+    // recursion: an internal definition read after the recursive activation returned
+    let wf = c.below(3);
+    let (whead, wcall) = match wf {
+        0 => ("(walk)", "(walk)"),
+        1 => ("(walk x)", "(walk (+ x 1))"),
+        _ => ("(walk . r)", "(apply walk 1 r)"),
+    };
+    let k = 2 + c.below(4);
+    src.push_str(&format!(
+        "(define depth 0) (define {} (define mine depth) (set! depth (+ depth 1)) (if (< depth {}) {} 'bottom) (list mine depth))",
+        whead, k, wcall
+    ));
+    src.push_str(match wf {
+        0 => "(walk)",
+        1 => "(walk 0)",
+        _ => "(walk)",
+    });
+    read_all(&src).expect("activation template parses")
+}
+
+fn activation_case(ctx: &Ctx, bytes: &[u8]) -> Outcome {
+    let mut c = mwv_core::choice::Choices::new(bytes);
+    let forms = activation_program(&mut c);
+    let mut feats = std::collections::BTreeSet::new();
+    feats.insert("activation-history");
+    check_session(ctx, "C01", &forms, &feats, &|st, _| st.closure_calls > 2)
+}
+
 impl Prop for C01 {
     fn id(&self) -> &'static str {
         "C01"
@@ -137,7 +219,7 @@ impl Prop for C01 {
         Some(("program", 20_000, 1536))
     }
     fn rule(&self) -> &'static str {
-        "sessions of 1-8 top-level forms from the typed program generator (definitions, type-preserving redefinitions, global set!, expressions over all core and derived forms, apply/eval/higher-order use), each run in the reference interpreter and in three VMs (fresh, second fresh, polluted with unrelated definitions). Non-trivial: the reference run calls at least one user-defined procedure and the session uses >= 2 different special/derived forms; distinct by program text."
+        "sessions of 1-8 top-level forms from the typed program generator (definitions, type-preserving redefinitions, global set!, expressions over all core and derived forms, apply/eval/higher-order use), each run in the reference interpreter and in three VMs (fresh, second fresh, polluted with unrelated definitions); plus activation histories (a maker procedure with formals (), (a), (a . r) or r whose instances close over internal definitions / let / parameter state, created and operated on in a random interleaving, and a recursive procedure that reads its own internal definition after the recursive call returned). Non-trivial: the reference run calls at least one user-defined procedure and the session uses >= 2 different special/derived forms; distinct by program text."
     }
     fn assumptions(&self) -> Vec<&'static str> {
         vec![
@@ -150,6 +232,8 @@ impl Prop for C01 {
         ctx.journal_bytes.set(true);
         let cases = ctx.tier.pick(1_500u32, 25_000u32);
         ctx.run_bytes("session", cases, 1536, case);
+        let acts = ctx.tier.pick(60u32, 1_500u32);
+        ctx.run_bytes("activation", acts, 48, activation_case);
     }
     fn replay(&self, ctx: &Ctx, kind: &str, payload: &Value) -> Outcome {
         match kind {
@@ -160,6 +244,7 @@ impl Prop for C01 {
                 };
                 check_forms(ctx, &forms, &Default::default())
             }
+            "activation" => activation_case(ctx, &unhex(payload["bytes"].as_str().unwrap_or(""))),
             _ => case(ctx, &unhex(payload["bytes"].as_str().unwrap_or(""))),
         }
     }
